@@ -18,8 +18,8 @@ from . import c11_ops as O
 from . import c11_univ as U
 
 UNIT_TIMEOUT = 900.0
-CHECKS = dict(ops=O.check_ops, pair=O.check_pair, partition=O.check_partition, apply=O.check_apply, inf=O.check_inf, wflat=O.check_wflat)
-CHUNK = dict(ops=12, pair=150, partition=40, apply=120, inf=10, wflat=6)
+CHECKS = dict(ops=O.check_ops, pair=O.check_pair, partition=O.check_partition, apply=O.check_apply, inf=O.check_inf, wflat=O.check_wflat, infapply=O.check_infapply)
+CHUNK = dict(ops=12, pair=150, partition=40, apply=120, inf=10, wflat=6, infapply=8)
 QUICK_CHAINS = ['S:Sz', 'S:None', 'F:N']
 CHARGED = {'S:Sz': ('Sp', 'Sz'), 'S1:Sz': ('Sp', 'Sz'), 'S:None': ('Sigmax', 'Sigmaz'), 'F:N': ('Cd', 'N')}
 INF_CELLS = [(1, 2), (2, 2), (1, 3), (3, 2)]  # (unit cell, maximal reach of a term)
@@ -31,6 +31,11 @@ def rng_for(seed, *key):
 
 def chains(tier):
     return QUICK_CHAINS if tier == 'quick' else QUICK_CHAINS + ['S1:Sz']
+
+
+def lengths(chain, tier, quick, thorough):
+    """Chain lengths of a tier; the spin-1 chain (d=3, thorough only) stays one site shorter."""
+    return quick if tier == 'quick' else [L for L in thorough if L < max(thorough) or chain != 'S1:Sz']
 
 
 def family(chain, L, seed, ci, pairs, bc='finite', reach=None):
@@ -76,13 +81,13 @@ def cases(kind, tier, seed):
     q = tier == 'quick'
     if kind == 'ops':
         for ci, chain in enumerate(chains(tier)):
-            for L in ((2, 3, 4) if q else (2, 3, 4, 5)):
+            for L in lengths(chain, tier, (2, 3, 4), (2, 3, 4, 5)):
                 for fam, spec in family(chain, L, seed, ci, pairs=L <= (3 if q else 4)):
                     if L < 5 or fam.startswith('single') or fam == 'all-groups':
                         yield dict(spec=spec, seed=seed, family=fam)
     elif kind == 'pair':
         for ci, chain in enumerate(chains(tier)):
-            for L in ((3,) if q else (2, 3, 4)):
+            for L in lengths(chain, tier, (3,), (2, 3, 4)):
                 fam = list(family(chain, L, seed, ci, pairs=False))
                 big = [s for f, s in fam if f in ('nearest-neighbour', 'all-groups-complex')]
                 std = [s for f, s in fam if f in ('single', 'single-nonhermitian')] + big
@@ -96,7 +101,7 @@ def cases(kind, tier, seed):
                     pairs = [itertools.product(herm, herm), itertools.product(std, big), itertools.product(big, std), itertools.product(herm, noid), itertools.product(noid, herm)]
                     pairs += [itertools.product(x, x[:3] + x[-1:]) for x in (noid, hc, ch)] + [itertools.product(hc[-3:], std[-3:]), itertools.product(std[-3:], hc[-3:])]
                 else:
-                    pairs = [itertools.product(x, y) for x, y in ((std, std), (std, noid), (noid, std), (noid, noid), (hc, hc), (ch, ch), (hc, std), (std, hc))]
+                    pairs = [itertools.product(x, y) for x, y in ((std, std), (std, noid), (noid, std), (noid, noid), (hc, hc), (ch, ch), (hc[-3:], std), (std, hc[-3:]))]
                 for a, b in itertools.chain(*pairs):
                     yield dict(spec1=a, spec2=b, seed=seed, propagators=b in big or not q)
             for L, reach in (INF_CELLS[:2] if q else INF_CELLS):
@@ -110,7 +115,7 @@ def cases(kind, tier, seed):
                             yield dict(spec1=dict(a, **({'max_range': m1} if m1 else {})), spec2=dict(b, **({'max_range': m2} if m2 else {})), seed=seed, default_window=True)
     elif kind == 'partition':
         for ci, chain in enumerate(chains(tier)):
-            todo = [(L, 'finite', None) for L in ((3, 4) if q else (2, 3, 4, 5))] + [(L, 'infinite', reach) for L, reach in (INF_CELLS[:2] if q else INF_CELLS)]
+            todo = [(L, 'finite', None) for L in lengths(chain, tier, (3, 4), (2, 3, 4, 5))] + [(L, 'infinite', reach) for L, reach in (INF_CELLS[:2] if q else INF_CELLS)]
             for L, bc, reach in todo:
                 fam = dict((f, s) for f, s in family(chain, L, seed, ci, pairs=False, bc=bc, reach=reach))
                 for name in ('all-groups', 'all-groups-complex'):
@@ -119,7 +124,7 @@ def cases(kind, tier, seed):
                             yield dict(spec=fam[name], k=k, all_id_single=all_id)
     elif kind == 'apply':
         for ci, chain in enumerate(chains(tier)):
-            for L in ((3, 4) if q else (2, 3, 4, 5)):
+            for L in lengths(chain, tier, (3, 4), (2, 3, 4, 5)):
                 fam = dict((f, s) for f, s in family(chain, L, seed, ci, pairs=False))
                 full, last = fam['all-groups-complex'], [s for f, s in family(chain, L, seed, ci, pairs=False) if f == 'single'][-1]
                 ops = [dict(kind='H', spec=full), dict(kind='H', spec=fam['all-groups-nonhermitian']), dict(kind='H', spec=last),
@@ -148,6 +153,16 @@ def cases(kind, tier, seed):
                     if q and (L, reach) in INF_CELLS[2:] and fam not in ('single', 'all-groups-complex', 'explicit_plus_hc'):
                         continue
                     yield dict(spec=spec, seed=seed, family=fam, Lpsi={1: [2, 3] if fam != 'pair-of-groups' else [2], 2: [2] if q else [2, 3], 3: [3]}[L])
+    elif kind == 'infapply':
+        ts = ([0., 0.1], [0.05, 0.05]) if q else ([0., 0.1], [-0.1, 0.], [0.05, 0.05])
+        for ci, chain in enumerate(chains(tier)):
+            cells = [(2, 1, None, 'nearest-neighbour'), (2, 2, None, 'all-groups-complex'), (1, 1, 2, 'nearest-neighbour')]
+            if not q:
+                cells += [(3, 1, None, 'nearest-neighbour'), (1, 2, 2, 'all-groups-complex'), (1, 1, 3, 'nearest-neighbour'), (2, 2, None, 'all-groups-nonhermitian')]
+            for L, reach, enlarge, name in cells:
+                spec = dict(family(chain, L, seed, ci, pairs=False, bc='infinite', reach=reach))[name]
+                for t, approx, method in itertools.product(ts, ('I', 'II'), ('naive', 'SVD', 'variational', 'variationalQR')):
+                    yield dict(spec=spec, t=list(t), approx=approx, method=method, enlarge=enlarge, seed=seed)
     elif kind == 'wflat':
         for bc, L, chi, chain, markers in itertools.product(('finite', 'infinite'), (1, 2, 3), (1, 2), ('S:None', 'S:Sz'), ('all', 'boundary')):
             if (bc == 'finite' and L == 1) or (bc == 'infinite' and markers == 'boundary'):
@@ -157,6 +172,8 @@ def cases(kind, tier, seed):
 
 
 def units(tier, seed, label):
+    if label == 'PY':  # (pure-Python kernels: the quick enumeration as a reduced pass of the thorough tier)
+        tier = 'quick'
     us = []
     for kind in CHECKS:
         n = sum(1 for _ in cases(kind, tier, seed))
@@ -190,6 +207,8 @@ def describe(kind, case):
         return dict(kind=kind, chain=case['spec']['chain'], L=case['spec']['L'], bc=case['spec']['bc'], term=case['spec']['terms'][case['k']])
     if kind == 'apply':
         return dict(kind=kind, op=case['op']['kind'], state=case['state'], method=case['method'], trunc=case['trunc'])
+    if kind == 'infapply':
+        return dict(kind=kind, chain=case['spec']['chain'], L=case['spec']['L'], enlarge=case['enlarge'], t=case['t'], approx=case['approx'], method=case['method'])
     return dict(case, kind=kind)
 
 
